@@ -72,6 +72,24 @@ def gen_case(rng, allow=None):
         elif r < 0.4:
             a2 = rng.randint(0, 2)
             f = ("tb1", rng.choice(["once", "hist", "ev", "alw"]), a2, a2 + rng.randint(0, 3), f)
+    elif allow is None and rng.random() < 0.2:
+        # an unbounded temporal operator whose operand contains another unbounded temporal operator (scratch state that the
+        # visit methods of the same direction share must not leak from the inner to the outer one)
+        def un(x):
+            k = rng.choice(["once", "hist", "ev", "alw", "since", "until"])
+            if k in ("since", "until"):
+                y = g.formula(rng.choice([0, 1]))
+                return ("t2", k, x, y) if rng.random() < 0.5 else ("t2", k, y, x)
+            return ("t1", k, x)
+        inner = un(g.formula(rng.choice([0, 1])))
+        r = rng.random()
+        if r < 0.4:
+            inner = ("b", rng.choice(["and", "or", "implies"]), g.formula(rng.choice([0, 1])), inner)
+        elif r < 0.6:
+            inner = ("b", rng.choice(["and", "or", "implies"]), inner, g.formula(rng.choice([0, 1])))
+        elif r < 0.7:
+            inner = ("u", "not", inner)
+        f = un(inner)
     else:
         f = g.formula(rng.choice([1, 2, 2, 3, 4]))
     vs = F.variables(f) or ["x"]
